@@ -24,6 +24,7 @@ verus! {
 //@include env/vsum_impls.vs
 //@include env/cache_spec.vs
 //@include env/cache_lemmas.vs
+//@include env/remove_lemmas.vs
 
 //@item model/src/network.rs Network::config
 //@retname r
@@ -347,6 +348,7 @@ pub open spec fn ends_ok(net: &Network, s: Seq<NodeIdx>) -> bool {
         dsmall(mid_p(self.pre(start_pos as int), self.mid(start_pos as int, end_pos as int), self.suf(end_pos as int), self.network.f_leg_dist())),
 //@first
         proof {
+            lemma_cuts(self, start_pos as int, end_pos as int);
             let net = &self.network;
             let m = self.mid(start_pos as int, end_pos as int);
             assert forall|i: int| 0 <= i < m.len() implies #[trigger] net.has(m[i]) by { assert(net.has(self.nodes@[start_pos + i])); }
@@ -382,6 +384,7 @@ pub open spec fn ends_ok(net: &Network, s: Seq<NodeIdx>) -> bool {
         dsmall(mid_p(self.pre(start_pos as int), new_nodes@, self.suf(end_pos as int), self.network.f_leg_dist())),
 //@first
         proof {
+            lemma_cuts(self, start_pos as int, end_pos as int);
             let net = &self.network;
             let m = new_nodes@;
             lemma_dead_head_distance_sum(net, m);
@@ -416,6 +419,7 @@ pub open spec fn ends_ok(net: &Network, s: Seq<NodeIdx>) -> bool {
             + nsum(self.mid(start_pos as int, end_pos as int), self.network.f_node_cost()),
 //@first
         proof {
+            lemma_cuts(self, start_pos as int, end_pos as int);
             let net = &self.network;
             let m = self.mid(start_pos as int, end_pos as int);
             assert forall|i: int| 0 <= i < m.len() implies #[trigger] net.has(m[i]) by { assert(net.has(self.nodes@[start_pos + i])); }
@@ -451,6 +455,7 @@ pub open spec fn ends_ok(net: &Network, s: Seq<NodeIdx>) -> bool {
             + nsum(new_nodes@, self.network.f_node_cost()),
 //@first
         proof {
+            lemma_cuts(self, start_pos as int, end_pos as int);
             let net = &self.network;
             let m = new_nodes@;
             lemma_cost_sums(net, m);
@@ -513,19 +518,19 @@ pub open spec fn ends_ok(net: &Network, s: Seq<NodeIdx>) -> bool {
         // would strand a depot or leave an unconnectable gap"
         r is Ok <==> self.has_node(segment.start) && self.has_node(segment.end)
             && self.removable(self.index_of(segment.start), self.index_of(segment.end)), // @obl C12.remove.refusal
-        r is Ok ==> r->Ok_0.1.node_sequence@ == self.nodes@.subrange(self.index_of(segment.start), self.index_of(segment.end) + 1)
-            && (r->Ok_0.0 is Some ==> r->Ok_0.0->Some_0.nodes@ == self.pre(self.index_of(segment.start)) + self.suf(self.index_of(segment.end) + 1)), // @obl C12.remove.exactly_those_nodes
+        r is Ok ==> r->Ok_0.1.node_sequence@ == self.mid(self.index_of(segment.start), self.index_of(segment.end) + 1)
+            && (r->Ok_0.0 is Some ==> r->Ok_0.0->Some_0.nodes@ == self.rest(self.index_of(segment.start), self.index_of(segment.end) + 1)), // @obl C12.remove.exactly_those_nodes
         r is Ok && r->Ok_0.0 is Some ==> r->Ok_0.0->Some_0.is_dummy == self.is_dummy && r->Ok_0.0->Some_0.network == self.network
             && r->Ok_0.0->Some_0.wf(), // @obl C01.remove.wf
         r is Ok && r->Ok_0.0 is Some ==> r->Ok_0.0->Some_0.caches_ok(), // @obl C09.remove.caches
 //@closure-params 0
     usize
 //@closure 0
-    -> (d: Duration) requires self.wf(), i < self.len() ensures d == self.network.sp_node(self.nodes@[i as int]).sp_duration()
+    -> (d: Duration) requires i < self.len(), self.network.has(self.nodes@[i as int]), self.network.sp_node(self.nodes@[i as int]).wf() ensures d == self.network.sp_node(self.nodes@[i as int]).sp_duration()
 //@closure-params 1
     usize
 //@closure 1
-    -> (d: Distance) requires self.wf(), i < self.len() ensures d == self.network.sp_node(self.nodes@[i as int]).sp_travel_distance()
+    -> (d: Distance) requires i < self.len(), self.network.has(self.nodes@[i as int]) ensures d == self.network.sp_node(self.nodes@[i as int]).sp_travel_distance()
 //@closure-params 2
     &NodeIdx
 //@closure 2
@@ -546,91 +551,39 @@ pub open spec fn ends_ok(net: &Network, s: Seq<NodeIdx>) -> bool {
 //@before "let new_useful_duration"
         broadcast use axiom_into_items_seqiter;
         proof {
-            let net = &self.network;
             let s = pos_seg_start as int; let e1 = pos_seg_end + 1;
-            lemma_split3(net, self.nodes@, s, e1);
-            let m = self.nodes@.subrange(s, e1);
-            assert(m =~= self.mid(s, e1));
-            lemma_useful_duration_sum(net, m);
-            lemma_service_distance_sum(net, m);
-            assert forall|i: int| 0 <= i < self.len() implies self.network.sp_node(#[trigger] self.nodes@[i]).wf() by {
-                assert(net.has(self.nodes@[i])); lemma_node_facts(net, self.nodes@[i]);
-            }
-            lemma_join2(net, self.pre(s), self.suf(e1));
-            if s > 0 && e1 < self.len() {
-                assert(net.has(self.nodes@[s - 1]) && net.has(self.nodes@[e1]));
-                lemma_leg_facts(net, self.nodes@[s - 1], self.nodes@[e1]);
-            }
+            lemma_remove_sums_visible(self, s, e1);
+            lemma_remove_useful(self, s, e1);
         }
 //@before "let new_service_distance"
-        assert(new_useful_duration == self.network.spec_useful_duration(self.pre(pos_seg_start as int) + self.suf(pos_seg_end + 1)));
+        assert(new_useful_duration == self.network.spec_useful_duration(self.rest(pos_seg_start as int, pos_seg_end + 1)));
+        proof { lemma_remove_service(self, pos_seg_start as int, pos_seg_end + 1); }
 //@before "let new_dead_head_distance"
-        assert(new_service_distance == self.network.spec_service_distance(self.pre(pos_seg_start as int) + self.suf(pos_seg_end + 1)));
-        proof {
-            let net = &self.network;
-            let s = pos_seg_start as int; let e1 = pos_seg_end + 1;
-            let p = self.pre(s); let m = self.mid(s, e1); let u = self.suf(e1);
-            if self.is_dummy {
-                assert forall|i: int| 0 <= i < self.nodes@.len() implies (#[trigger] net.sp_node(self.nodes@[i])).sp_is_activity() by {}
-                lemma_psum_dist_activities(net, self.nodes@);
-            } else if s >= 1 && e1 <= self.len() - 1 {
-                assert forall|i: int| 0 <= i < m.len() implies (#[trigger] net.sp_node(m[i])).sp_is_activity() by {
-                    lemma_tour_kinds(self, s + i);
-                }
-                if psum(self.nodes@, net.f_leg_dist()) >= DBIG {
-                    lemma_remove_keeps_infinity(net, p, m, u);
-                }
-            }
-            lemma_mid_nonneg(net, p, m, u);
-        }
+        assert(new_service_distance == self.network.spec_service_distance(self.rest(pos_seg_start as int, pos_seg_end + 1)));
+        proof { lemma_remove_dhd(self, pos_seg_start as int, pos_seg_end + 1); }
 //@before "let new_costs"
         assert(self.is_dummy || (pos_seg_start >= 1 && pos_seg_end + 1 <= self.len() - 1) ==>
-            new_dead_head_distance == self.network.spec_dead_head_distance(self.pre(pos_seg_start as int) + self.suf(pos_seg_end + 1)));
+            new_dead_head_distance == self.network.spec_dead_head_distance(self.rest(pos_seg_start as int, pos_seg_end + 1)));
+        proof { lemma_remove_costs(self, pos_seg_start as int, pos_seg_end + 1); }
 //@before "let mut tour_nodes"
-        assert(new_costs as int == self.network.spec_costs(self.pre(pos_seg_start as int) + self.suf(pos_seg_end + 1)));
+        assert(new_costs as int == self.network.spec_costs(self.rest(pos_seg_start as int, pos_seg_end + 1)));
 //@before "if tour_nodes.is_empty()"
         proof {
-            let net = &self.network;
             let s = pos_seg_start as int; let e1 = pos_seg_end + 1;
-            assert(tour_nodes@ =~= self.pre(s) + self.suf(e1));
-            assert(removed_nodes@ =~= self.nodes@.subrange(s, e1));
-            // the removed block contains an activity
-            let k: int = if s == 0 { 1 } else { s };
-            lemma_tour_kinds(self, k);
-            assert(removed_nodes@[k - s] == self.nodes@[k]);
-            assert(net.sp_node(removed_nodes@[k - s]).sp_is_activity());
-            assert forall|i: int| 0 <= i < removed_nodes@.len() implies #[trigger] net.has(removed_nodes@[i]) by { assert(net.has(self.nodes@[s + i])); }
+            assert(tour_nodes@ == self.rest(s, e1) && removed_nodes@ == self.mid(s, e1)) by {
+                reveal(Tour::rest); reveal(Tour::mid);
+                assert(tour_nodes@ =~= self.nodes@.subrange(0, s) + self.nodes@.subrange(e1, self.len()));
+                assert(removed_nodes@ =~= self.nodes@.subrange(s, e1));
+            }
+            lemma_remove_block(self, s, pos_seg_end as int);
+            lemma_cuts(self, s, e1);
         }
 //@before "let visits_maintenance"
+        proof { lemma_remove_vm(self, pos_seg_start as int, pos_seg_end + 1); }
+//@before "Ok(( Some(Tour::new_precomputed("
         proof {
-            let net = &self.network;
             let s = pos_seg_start as int; let e1 = pos_seg_end + 1;
-            let p = self.pre(s); let m = self.mid(s, e1); let u = self.suf(e1);
-            // both depots stay (or the tour is a dummy tour): the remaining tour is well formed
-            assert(self.is_dummy || (s >= 1 && e1 <= self.len() - 1));
-            assert forall|i: int| 0 <= i < tour_nodes@.len() implies #[trigger] net.has(tour_nodes@[i]) by {
-                if i < s { assert(net.has(self.nodes@[i])); } else { assert(net.has(self.nodes@[i + (e1 - s)])); }
-            }
-            assert forall|i: int| 0 <= i < tour_nodes@.len() - 1 implies #[trigger] net.reach(tour_nodes@[i], tour_nodes@[i + 1]) by {
-                if i < s - 1 { assert(net.reach(self.nodes@[i], self.nodes@[i + 1])); }
-                else if i == s - 1 { }
-                else { assert(net.reach(self.nodes@[i + (e1 - s)], self.nodes@[i + (e1 - s) + 1])); }
-            }
-            if self.is_dummy {
-                assert forall|i: int| 0 <= i < tour_nodes@.len() implies (#[trigger] net.sp_node(tour_nodes@[i])).sp_is_activity() by {
-                    if i < s { lemma_tour_kinds(self, i); } else { lemma_tour_kinds(self, i + (e1 - s)); }
-                }
-            } else {
-                let inner = tour_nodes@.subrange(1, tour_nodes@.len() - 1);
-                assert forall|i: int| 0 <= i < inner.len() implies (#[trigger] net.sp_node(inner[i])).sp_is_activity() by {
-                    if i + 1 < s { lemma_tour_kinds(self, i + 1); } else { lemma_tour_kinds(self, i + 1 + (e1 - s)); }
-                }
-                lemma_tour_kinds(self, 0); lemma_tour_kinds(self, self.len() - 1);
-            }
-            lemma_vm_concat(net, p + m, u);
-            lemma_vm_concat(net, p, m);
-            lemma_vm_concat(net, p, u);
-            assert(self.nodes@ =~= p + m + u);
+            assert(visits_maintenance == self.network.spec_visits_maintenance(self.rest(s, e1)));
         }
 //@attr verifier::rlimit(100)
 //@end
